@@ -29,8 +29,10 @@ fn si(a: &[&str]) -> String {
 
 // ------------------------------------------------------------------ rates
 
+#[cfg(feature = "g_rate")]
 use quantities::Rate;
 
+#[cfg(feature = "g_rate")]
 fn rate_fields<TQ: Quantity, PQ: Quantity>(r: &Rate<TQ, PQ>) -> String {
     format!(
         "{} {} {} {}",
@@ -41,6 +43,7 @@ fn rate_fields<TQ: Quantity, PQ: Quantity>(r: &Rate<TQ, PQ>) -> String {
     )
 }
 
+#[cfg(feature = "g_rate")]
 /// args: ta tu pm pu op ...
 /// `q_mul_rate`, `q_div_rate`, `q_mul_recip`: the generated operators, where the types have them
 /// (the dimensionless `AmountT` has none of the generated `Mul<Rate>` / `Div<Rate>` impls).
@@ -113,8 +116,10 @@ where
 
 // ------------------------------------------------------------------ conversion tables
 
+#[cfg(any(feature = "g_tconv", feature = "temp"))]
 use quantities::{ConversionTable, Converter};
 
+#[cfg(feature = "g_tconv")]
 /// rows: `from:to:factor:offset;...` (or `-` for the empty table)
 pub fn tconv_ops<Q: Quantity>(a: &[&str]) -> String
 where
